@@ -6,10 +6,13 @@ THEOREMS = [
     "C20_unchanged_not_relayed", "C20_premature_replay_revalidates",
     "C20_nodes_have_channels", "C20_node_ann_needs_channel",
     "C20_node_ann_channelless_window_refuted", "C20_zombie_resurrection_authentic",
+    "C20_apply_update_authentic", "C20_atomic_updates_keep_max",
+    "C20_nonatomic_updates_refuted",
 ]
 MODULE = "LV.Gossip.Props"
 TARGETS = ["theories/Gossip/Props.vo", "theories/Gossip/Exec.vo", "theories/Gossip/Examples.vo"]
-HFILES = ["discovery/verif_gossip_test.go", "discovery/verif_gossip_store_kv_test.go",
+HFILES = ["discovery/verif_gossip_test.go", "discovery/verif_gossip_interleave_test.go",
+          "discovery/verif_gossip_store_kv_test.go",
           "discovery/verif_gossip_store_sql_test.go"]
 WARM = [{"pkg": "discovery", "files": HFILES}]
 IMPORTS = ("From Coq Require Import List NArith Bool.\nImport ListNotations.\n"
@@ -99,6 +102,8 @@ def fill_graphs(case):
         if "g" in s:
             g = s["g"]
         s["G"] = g
+    # the first step of a concurrent pair has no snapshot of its own: its effect is
+    # judged together with the second one (see pair handling in predicate)
 
 
 def case_term(case):
@@ -130,12 +135,17 @@ def case_term(case):
                 seen.add(p)
                 bans2.append(b)
         isop = m["t"] == "op"
-        steps.append("mkStep %s %s %s %s %s %s %s %s %s %s %s %s" % (
+        steps.append("mkStep %s %s %s %s %s %s %s %s %s %s %s %s %s %s" % (
             cbool(s.get("restart")), n(s["now"]), n(s["peer"]), n(cid(m["cid"])),
-            "(Some %s)" % op_term(m) if isop else "None", fund, n(s.get("best", case["best"])),
+            "(Some %s)" % op_term(m) if isop else "None",
+            cbool(s.get("via") == "apply"), cbool(s.get("nosnap")),
+            fund, n(s.get("best", case["best"])),
             DUMMY_MSG if isop else msg_term(m), verdict_term(s["res"]),
             clist(resolved), snap_term(s["G"]), clist(bans2)))
-    bc = sorted((cid(h), c) for h, c in case["bcast"].items())
+    # between the two updates of a concurrent pair the harness cannot flush the gossiper's
+    # de-duplication batch: whether the first one is still broadcast on its own is timing
+    skipbc = {s["m"]["cid"] for s in case["steps"] if s.get("nosnap")}
+    bc = sorted((cid(h), c) for h, c in case["bcast"].items() if h not in skipbc)
     cfg = "(mkCfg %s 1%%N %s false %s %s %s)" % (n(case["own"]), n(case["best"]), n(case["rebroadcast"]),
                                              n(case["prune"]), n(case["burst"]))
     return "mkCase %s %s %s\n %s\n %s\n %s\n %s" % (
@@ -160,6 +170,9 @@ SIG_ZOMBIE_OWNER = "C20 zombie:owner-update-rejected-as-badly-signed"
 SIG_NA_WINDOW = "C20 node-ann:channelless before-next-block"   # ... no block connected since it lost it
 SIG_NA_BLOCK = "C20 node-ann:channelless after-block"          # + backend: blocks connected, no sweep point
 SIG_NA_SWEPT = "C20 node-ann:channelless after-sweep"          # + backend: even after a sweep point
+SIG_STALE_WRITE = "C20 update:not-strictly-newer-write"          # + entry points
+SIG_FINAL_MAX = "C20 update:final-policy-is-not-the-newest-accepted"
+SIG_VIEWS = "C20 update:graph-views-disagree"
 
 
 def na_signature(inf, backend):
@@ -174,6 +187,85 @@ def na_signature(inf, backend):
     if inf["blocks"] == 0:
         return SIG_NA_WINDOW
     return "%s %s" % (SIG_NA_BLOCK, backend)
+
+
+def writes_predicate(case):
+    """The store wrapper's log of policy writes, in the order in which they were performed:
+    per (channel, direction) every successful write must be strictly newer than what the
+    store held when it was performed (the graph before the step, then the previous write of
+    the step).  For the interleaving scenarios additionally: the final policy is the
+    newest accepted one, and all views of the graph (by-id lookup, HasV1ChannelEdge, the
+    iteration used for snapshots, the on-disk state after a restart) agree."""
+    out = []
+    steps = case["steps"]
+    held = {}      # (scid, dir) -> timestamp the store holds (None: no policy)
+    by_step = {}
+    for w in case.get("writes") or []:
+        by_step.setdefault(w["step"], []).append(w)
+    prev = {"chans": []}
+    skip_to = -1
+    for s in steps:
+        i = s["i"]
+        if i <= skip_to:
+            prev = s["G"]
+            continue
+        ws = list(by_step.get(i, []))
+        if s.get("nosnap"):
+            skip_to = i + 1                       # the pair shares one write window
+        cur = {}
+        for c in prev["chans"]:
+            for d in (0, 1):
+                cur[(c[0], d)] = c[7 + d][0] if c[7 + d] is not None else None
+        for w in ws:
+            k = (w["scid"], w["dir"])
+            if not w["ok"] or k not in cur:
+                continue
+            if cur[k] is not None and w["ts"] <= cur[k]:
+                vias = "+".join(x.get("via", "gossip") for x in steps[i:i + (2 if s.get("nosnap") else 1)])
+                out.append(("%s %s" % (SIG_STALE_WRITE, vias),
+                            "step %d: policy %d/%d with timestamp %d was WRITTEN although the store "
+                            "held timestamp %d at that moment (writes of the step, in order: %s)" %
+                            (i, w["scid"], w["dir"], w["ts"], cur[k],
+                             [(x["ts"], x["ok"]) for x in ws])))
+            cur[k] = w["ts"]
+        prev = steps[min(i + 1, len(steps) - 1)]["G"] if s.get("nosnap") else s["G"]
+    il = case.get("interleave")
+    if il:
+        scid, d = il["scid"], il["dir"]
+        pair = [s for s in steps if s["tag"].startswith("cu_i_1") or s["tag"].startswith("cu_i_2")]
+        before = None
+        for s in steps:
+            if s.get("nosnap"):
+                break
+            for c in s["G"]["chans"]:
+                if c[0] == scid:
+                    before = c[7 + d][0] if c[7 + d] is not None else None
+        accepted = [x["m"]["ts"] for x in pair if x["res"] == "ok"]
+        want = max([t for t in accepted] + ([before] if before is not None else []), default=None)
+        final = None
+        for c in pair[-1]["G"]["chans"]:
+            if c[0] == scid and c[7 + d] is not None:
+                final = c[7 + d][0]
+        if final != want:
+            out.append((SIG_FINAL_MAX,
+                        "interleaving %s/%s (%s, second commits first: %s, both past their check: %s): "
+                        "stored timestamp before %s, accepted updates %s, the graph ends with "
+                        "timestamp %s instead of %s" %
+                        (il["via1"], il["via2"], il["rel"], il["second_first"], il["both_past_check"],
+                         before, [(x["m"]["ts"], x.get("via")) for x in pair], final, want)))
+        cold = None
+        for c in steps[-1]["G"]["chans"]:
+            if c[0] == scid and c[7 + d] is not None:
+                cold = c[7 + d][0]
+        views = {"snapshot": final, "on-disk-after-restart": cold}
+        for name, v in (il.get("views") or {}).items():
+            views[name] = v[d] if v[d] >= 0 else None
+        for name, v in (il.get("views_cold") or {}).items():
+            views[name + "-after-restart"] = v[d] if v[d] >= 0 else None
+        if len(set(views.values())) > 1:
+            out.append((SIG_VIEWS, "interleaving %s/%s (%s): the views of policy %d/%d disagree: %s" %
+                        (il["via1"], il["via2"], il["rel"], scid, d, views)))
+    return out
 
 
 def predicate(case, obs=None):
@@ -208,8 +300,14 @@ def predicate(case, obs=None):
     effect = {}        # content id -> number of graph changes it caused
     real = {}          # scid -> (node1, node2) of the channel as last seen in the graph
     orphan = {}        # node -> how it lost its last channel and what happened since
+    pair_first = None  # first step of a concurrent pair (no snapshot between the two)
     for s in case["steps"]:
         i, m, orc, g = s["i"], s["m"], s["orc"], s["G"]
+        if s.get("nosnap"):
+            if s["res"] == "timeout":
+                fail("step %d: no answer from the gossiper" % i)
+            pair_first = s
+            continue
         isop = m["t"] == "op"
         op = m.get("op") if isop else None
         if s.get("restart"):
@@ -265,23 +363,25 @@ def predicate(case, obs=None):
                 changed = True
                 cands = []
                 if m["t"] == "cu":
-                    cands = [m]
+                    cands = [m] + ([pair_first["m"]] if pair_first else [])
                 elif m["t"] == "ca" and m["scid"] == scid:
                     cands = pend.get(scid, [])
                 hit = None
                 for u in cands:
                     if u["scid"] == scid and (u["cf"] & 1) == d and upd_policy(u) == newp:
                         hit = u
+                hvia = (pair_first if pair_first and hit is pair_first["m"] else s).get("via", "gossip")
                 capm = c[5] * 1000
                 if hit is None:
                     fail("step %d: policy %d/%d changed to %s, not the content of the "
                          "message(s) at hand" % (i, scid, d, newp))
-                elif not ((c[1 + d], hit["dg"], hit["sig"]) in ver and hit["ts"] > 0 and
-                          (oldp[d] is None or oldp[d][0] < hit["ts"]) and hit["chain"] == 1 and
+                elif not ((c[1 + d], hit["dg"], hit["sig"]) in ver and
+                          (hit["ts"] > 0 and hit["chain"] == 1 or hvia == "apply") and
+                          (oldp[d] is None or oldp[d][0] < hit["ts"]) and
                           (hit["mf"] & 1) and hit["max"] > 0 and hit["max"] >= hit["min"] and
                           (capm == 0 or hit["max"] <= capm)):
                     if oldp[d] is not None and oldp[d][0] >= hit["ts"]:
-                        why = "policy replaced by a not-strictly-newer update"
+                        why = "policy replaced by a not-strictly-newer update (%s)" % hvia
                     elif capm != 0 and hit["max"] > capm:
                         why = ("updated with inconsistent fields: htlc_maximum_msat %d exceeds the "
                                "capacity %d msat" % (hit["max"], capm))
@@ -291,6 +391,18 @@ def predicate(case, obs=None):
                         why = "updated by an update that is not authentic"
                     fail("step %d: policy %d/%d %s: %s (old %s, cap %d)" %
                          (i, scid, d, why, hit, oldp[d], c[5]))
+                elif pair_first and (pair_first if hit is pair_first["m"] else s)["res"] != "ok":
+                    fail("step %d: policy %d/%d is the content of an update that was answered %s" %
+                         (i, scid, d, (pair_first if hit is pair_first["m"] else s)["res"]))
+                elif pair_first:
+                    # both updates of the pair may have changed the graph one after the
+                    # other: the store's write log says which did
+                    for w in case.get("writes") or []:
+                        if w["step"] == pair_first["i"] and w["ok"] and (w["scid"], w["dir"]) == (scid, d):
+                            for x in (pair_first["m"], m):
+                                if x["ts"] == w["ts"]:
+                                    effect[x["cid"]] = effect.get(x["cid"], 0) + 1
+                                    break
                 else:
                     effect[hit["cid"]] = effect.get(hit["cid"], 0) + 1
         # ---- zombie index ----
@@ -383,7 +495,10 @@ def predicate(case, obs=None):
                 k in np_ and nn[k] != np_[k] for k in nn) or
                 any(scid in cp and cn[scid][7:9] != cp[scid][7:9] for scid in cn)):
             fail("step %d: a graph maintenance event (%s) added or rewrote graph content" % (i, op))
-        if changed and s["res"].startswith("err"):
+        if changed and pair_first:
+            if pair_first["res"].startswith("err") and s["res"].startswith("err"):
+                fail("step %d: graph changed although both concurrent updates were rejected" % i)
+        elif changed and s["res"].startswith("err"):
             fail("step %d: graph changed although the message was rejected (%s)" %
                  (i, s["res"]))
         if s["res"] == "pending":
@@ -395,7 +510,9 @@ def predicate(case, obs=None):
                 fail("step %d: premature update of step %d never answered" % (i, r[0]))
         if m["t"] == "ca" and s["resolved"]:
             pend.pop(m["scid"], None)
+        pair_first = None
         gp = g
+    fails += writes_predicate(case)
     known = {s["m"]["cid"] for s in case["steps"]}
     for h, cnt in case["bcast"].items():
         if h not in known:
@@ -420,24 +537,38 @@ def run(ctx):
     import os as _os
     from concurrent.futures import ThreadPoolExecutor
     ncases_env = _os.environ.get("VERIF_CASES")
-    jobs = [("bbolt", ctx.uid(), "verif", {}),
+    jobs = [("bbolt", ctx.uid(), "verif", {}, False),
             ("sqlite", ctx.uid("sql"), "verif test_db_sqlite",
-             {} if ncases_env else {"VERIF_CASES": "800" if ctx.thorough else "60"})]
+             {} if ncases_env else {"VERIF_CASES": "800" if ctx.thorough else "60"}, False)]
+    if ctx.thorough and not ctx.replay:
+        # the interleaving scenarios (+ a few ordinary cases) again under the race detector,
+        # on their own seed
+        rs = {"VERIF_CASES": "40", "VERIF_SEED": str(ctx.seed + 1000)}
+        jobs += [("bbolt", ctx.uid("race"), "verif", rs, True),
+                 ("sqlite", ctx.uid("sqlrace"), "verif test_db_sqlite", rs, True)]
     if ctx.replay:
         # --replay: re-run exactly the recorded case (same seed, case index, backend)
         import json as _json
         rp = _json.load(open(ctx.replay))
         det = rp.get("detail") or {}
         if "case" in det:
-            renv = {"VERIF_SEED": str(rp.get("seed", ctx.seed)), "VERIF_CASE_ONLY": str(det["case"]),
+            renv = {"VERIF_SEED": str(det.get("seed", rp.get("seed", ctx.seed))),
+                    "VERIF_CASE_ONLY": str(det["case"]),
                     "VERIF_TIER": rp.get("tier", ctx.tier), "VERIF_CASES": str(int(det["case"]) + 1)}
-            jobs = [(bk, uid, tg, renv) for bk, uid, tg, _ in jobs if bk == det.get("backend", "bbolt")]
+            jobs = [(bk, uid, tg, renv, False) for bk, uid, tg, _, _ in jobs
+                    if bk == det.get("backend", "bbolt")]
 
     def one(job):
-        bk, uid, tg, env = job
-        rc, trace, out = run_harness(uid, "discovery", HFILES, "^TestVerifGossip$", timeout=2400,
-                                     tags=tg, env=env, extra=["-parallel", "5"])
-        return bk, rc, sorted(read_jsonl(trace), key=lambda r: r["case"]), out
+        bk, uid, tg, env, race = job
+        rc, trace, out = run_harness(uid, "discovery", HFILES, "^TestVerifGossip$", timeout=3000,
+                                     tags=tg, env=env, extra=["-parallel", "5"], race=race)
+        rws = sorted(read_jsonl(trace), key=lambda r: r["case"])
+        for r in rws:
+            r["seed"] = int(env.get("VERIF_SEED", ctx.seed))
+            r["race"] = race
+        if race and "DATA RACE" in out:
+            rc = rc or 1
+        return bk, rc, rws, out
 
     rows = []
     with ThreadPoolExecutor(max_workers=2) as ex:
@@ -454,7 +585,7 @@ def run(ctx):
     for c in rows:
         f = predicate(c, obs)
         if f:
-            pred_bad.add((c["backend"], c["case"]))
+            pred_bad.add((c["backend"], c["case"], c["seed"]))
             nfail += 1
             # one report per distinct signature of the case; per signature at most 3
             # reports per run (known findings are matched on the signature)
@@ -464,12 +595,13 @@ def run(ctx):
                     continue
                 mine = [x[1] for x in f if x[0] == sig]
                 ctx.violation("impl_violates_predicate", "C20 authenticity predicate",
-                              {"seed": ctx.seed, "case": c["case"], "backend": c["backend"],
+                              {"seed": c["seed"], "case": c["case"], "backend": c["backend"],
                                "kind": c["kind"], "template": c.get("template"),
+                               "interleave": c.get("interleave"), "writes": c.get("writes"),
                                "fails": mine[:6],
                                "other_fails_of_the_case": [x[1] for x in f if x[0] != sig][:6],
-                               "steps": [{k: s[k] for k in ("i", "restart", "tag", "m", "orc", "res",
-                                                            "resolved", "G")}
+                               "steps": [{k: s.get(k) for k in ("i", "restart", "tag", "via", "nosnap", "m",
+                                                                "orc", "res", "resolved", "G")}
                                          for s in c["steps"]], "bcast": c["bcast"],
                                "replay": "./check C20 --replay <this file>"},
                               signature=sig)
@@ -482,24 +614,34 @@ def run(ctx):
         c = rows[ci]
         first = [s for s in c["steps"] if s["i"] in idx[:3]]
         ctx.violation("correspondence_mismatch", "Gossip.Exec.check_case",
-                      {"seed": ctx.seed, "case": c["case"], "backend": c["backend"], "kind": c["kind"],
-                       "disagreeing_steps": idx,
-                       "steps": [{k: s[k] for k in ("i", "tag", "m", "orc", "res", "resolved", "ban", "G")}
+                      {"seed": c["seed"], "case": c["case"], "backend": c["backend"], "kind": c["kind"],
+                       "interleave": c.get("interleave"), "disagreeing_steps": idx,
+                       "steps": [{k: s.get(k) for k in ("i", "tag", "via", "nosnap", "m", "orc", "res",
+                                                        "resolved", "ban", "G")}
                                  for s in first],
                        "bcast": c["bcast"],
                        "replay": "./check C20 --replay <this file>"},
                       signature="gossip mismatch",
-                      failing_input=((c["backend"], c["case"]) in pred_bad))
+                      failing_input=((c["backend"], c["case"], c["seed"]) in pred_bad))
     if not pr["ok"] and not ctx.violations:
         ctx.violation("proof_broken", ", ".join(pr["broken"]) or "Gossip build",
                       {"log": pr["log"][-4000:]}, signature="proof", failing_input=False)
     tags_h, verd, types, kinds = {}, {}, {}, {}
     ops_h, tmpl_h, after_h = {}, {}, {}
+    via_h, il_h, il_both = {}, {}, 0
+    nwrites = 0
     nsteps = changed = relayed = pending = restarts = 0
     zombie_marked = zombie_resurrected = 0
     for c in rows:
         kinds[c["kind"]] = kinds.get(c["kind"], 0) + 1
         relayed += sum(c["bcast"].values())
+        nwrites += len(c.get("writes") or [])
+        if c.get("interleave"):
+            il = c["interleave"]
+            k = "%s/%s+%s/%s/%s" % (c["backend"], il["via1"], il["via2"], il["rel"],
+                                    "second-first" if il["second_first"] else "held-first")
+            il_h[k] = il_h.get(k, 0) + 1
+            il_both += 1 if il["both_past_check"] else 0
         if c.get("template", -1) >= 0:
             t = c["template"]
             name = "%s/%s/%s" % (c["backend"], REMOVALS[t % len(REMOVALS)], SWEEPS[t // len(REMOVALS)])
@@ -524,6 +666,9 @@ def run(ctx):
                 last_op = s["m"]["op"]
             else:
                 verd[s["res"]] = verd.get(s["res"], 0) + 1
+                if mt == "cu":
+                    k = "%s %s" % (s.get("via", "gossip"), "graph changed" if "g" in s else s["res"])
+                    via_h[k] = via_h.get(k, 0) + 1
                 if last_op or s.get("restart"):
                     # message kinds that arrive right after a graph maintenance event
                     k = "%s after %s" % (mt, "restart" if s.get("restart") else last_op)
@@ -553,7 +698,11 @@ def run(ctx):
                 "PruneGraphNodes) laid out by enumerated templates (removal kind x sweep kind x "
                 "update pattern) followed by node announcements of the endpoints, updates for both "
                 "directions signed by the owner and by the other party, the announcement again, "
-                "and a random tail; non-trivial = more than 3 events; distinct by (generator tag, "
+                "and a random tail; every 7th free-choice channel update goes through the second "
+                "entry point Builder.ApplyChannelUpdate; 24 enumerated interleaving scenarios per "
+                "backend (entry point x entry point x older/equal/newer x commit order) with the "
+                "first update HELD at the store boundary between its freshness check and its write; "
+                "non-trivial = more than 3 events; distinct by (generator tag, "
                 "verdict, type, timestamp, graph-changed) list",
         "traces_validated_against_impl": len(rows),
         "case_kinds": kinds, "message_types": types, "verdicts": verd,
@@ -563,6 +712,11 @@ def run(ctx):
         "premature_updates_replayed": pending,
         "restarts_on_cold_store": restarts,
         "graph_maintenance_events": dict(sorted(ops_h.items())),
+        "channel_updates_by_entry_point": dict(sorted(via_h.items())),
+        "interleaving_scenarios": dict(sorted(il_h.items())),
+        "interleavings_with_both_updates_past_their_check": il_both,
+        "policy_writes_logged_at_the_store": nwrites,
+        "cases_under_race_detector": sum(1 for r in rows if r.get("race")),
         "history_templates": dict(sorted(tmpl_h.items())),
         "messages_right_after_maintenance_event": dict(sorted(after_h.items())),
         "zombie_entries_marked_by_deletion": zombie_marked,
@@ -588,6 +742,12 @@ def run(ctx):
         "sqlite = known finding C20-F3, after-block bbolt / after-sweep = violation); the Coq model "
         "mirrors the stores' real sweeping (flag sweep_always) and the clause is stated as "
         "C20_node_ann_channelless_window_refuted",
+        "interleavings: two concurrent updates per channel direction (N=2); the hook sits at the "
+        "Store.UpdateEdgePolicy boundary; 'does the second update get past its check while the "
+        "first is held' is decided by waiting 250 ms (on a correct tree it never does, so the "
+        "outcome there does not depend on timing); the gossiper's IsStaleEdgePolicy pre-check runs "
+        "outside the Builder mutex, so the second update of a pair may be answered ErrOutdated "
+        "where the sequential model says nil (accepted by Exec only with an unchanged graph)",
         "Builder.pruneZombieChans (a timer) is replayed as its store calls "
         "DeleteChannelEdges(strict, markZombie=true) + PruneGraphNodes",
     ]
